@@ -711,4 +711,53 @@ example :
 
 end UpgHandshakeProps
 
+/-! ## hot upgrade end to end: the schedule the two-process run (kind up2) is judged against -/
+section UpgradeEndToEnd
+open MosnVerif.Model.UpgHandshake MosnVerif.Gen.UpgHandshake MosnVerif.Model.UpgTiming MosnVerif.Gen.UpgTiming
+
+/-- **upgrade_exit_window**: for EVERY configured graceful timeout (0 = absent), drain time, set of requests in flight
+and ready instant within the old process's read deadline, the old process — step list regenerated from
+`ReconfigureHandler`, exit timer regenerated from `WaitConnectionsDone` — exits by itself, not before
+`ready + 3 s + 2·graceful + 2·readTimeout` and not after that plus the drain time.  (The literal window of the up2
+cases; an old process that leaves earlier — e.g. without `WaitConnectionsDone` — or later is outside it.) -/
+theorem upgrade_exit_window (tReady drainTime cfg : Nat) (inflight : List Nat) (h : tReady ≤ readyDeadlineMs) :
+    ∃ e, (upgrade tReady drainTime inflight (lifetime (graceful cfg) defaultConnReadTimeoutMs)).exitAt = some e ∧
+      tReady + 3000 + 2 * graceful cfg + 30000 ≤ e ∧ e ≤ tReady + 3000 + drainTime + 2 * graceful cfg + 30000 := by
+  unfold upgrade
+  rw [upgrade_eq]
+  have hd : shutdownDur drainTime inflight ≤ drainTime := by unfold shutdownDur; exact Nat.min_le_left _ _
+  simp only [h, if_true]
+  refine ⟨_, rfl, ?_, ?_⟩ <;>
+    simp only [lifetime, waitConnectionsDone, defaultConnReadTimeoutMs] <;> omega
+
+/-- **upgrade_handover_inside_lifetime**: in that schedule every transferable connection — whatever the read loop
+draws, the stop and the expiry of its timer each noticed up to a read timeout late, the old process started cold or
+itself born from an upgrade — is handed over strictly before the old process exits, and from the ready instant to the
+exit (and beyond) somebody accepts on the shared listeners. -/
+theorem upgrade_handover_inside_lifetime (tReady drainTime cfg r : Nat) (inherited : Bool) (inflight : List Nat)
+    (h : tReady ≤ readyDeadlineMs) (hr : r < randBound (transferTimeoutAfterStart inherited cfg)) :
+    ∃ s e, (upgrade tReady drainTime inflight (lifetime (graceful cfg) defaultConnReadTimeoutMs)).stopAt = some s ∧
+      (upgrade tReady drainTime inflight (lifetime (graceful cfg) defaultConnReadTimeoutMs)).exitAt = some e ∧
+      s + shutdownDur drainTime inflight
+        + handoverLatest (transferTimeoutAfterStart inherited cfg) r defaultConnReadTimeoutMs < e ∧
+      ∀ t, oldAccepts (upgrade tReady drainTime inflight (lifetime (graceful cfg) defaultConnReadTimeoutMs)) t = true ∨
+        newAccepts (upgrade tReady drainTime inflight (lifetime (graceful cfg) defaultConnReadTimeoutMs)) tReady t = true := by
+  have hb := handover_before_exit inherited cfg defaultConnReadTimeoutMs r hr
+  have hacc := upgrade_always_one_acceptor tReady drainTime (lifetime (graceful cfg) defaultConnReadTimeoutMs) inflight
+  refine ⟨tReady + 3000, tReady + 3000 + shutdownDur drainTime inflight + lifetime (graceful cfg) defaultConnReadTimeoutMs, ?_, ?_, ?_, hacc⟩
+  · unfold upgrade; rw [upgrade_eq]; simp [h]
+  · unfold upgrade; rw [upgrade_eq]; simp [h]
+  · omega
+
+/-- non-vacuous: graceful_timeout 2 s, drain 2 s, requests in flight for the whole drain: exit 39 s after ready -/
+example : (upgrade 0 2000 [2000] (lifetime (graceful 2000) defaultConnReadTimeoutMs)).exitAt = some 39000
+    ∧ (upgrade 0 2000 [] (lifetime (graceful 2000) defaultConnReadTimeoutMs)).exitAt = some 37000 := by decide
+example : (1999 : Nat) < randBound (transferTimeoutAfterStart false 2000) := by decide
+/-- negation witness: an old process that skips `WaitConnectionsDone` is gone before the earliest hand-over -/
+example : (runOld [.sendListeners, .readReady, .writeAck, .stopService, .sleep 3000, .shutdown, .exit] 0 2000
+      (lifetime (graceful 2000) defaultConnReadTimeoutMs)).exitAt = some 5000
+    ∧ 5000 < 3000 + 2000 + transferInstant (transferTimeoutAfterStart false 2000) 0 := by decide
+
+end UpgradeEndToEnd
+
 end MosnVerif.Props.C11
